@@ -205,6 +205,12 @@ def gen_case(rng, index, tier):
                           ['me', L.uid, '@/' + L.home]]
         if rng.random() < 0.5:
             case['passwd'].append(['last', 4105, '@/nonexistent'])
+    if case['cmd'] in ('empty', 'empty-days', 'list') and state != 'sticky' \
+            and tv and '--all-users' not in xo and rng.random() < 0.15:
+        # --trash-dir naming the volume's top directory itself (not a trash
+        # directory): whatever that selects, it is not the insecure $uid dir
+        xo = xo + ['--trash-dir', '@/' + tv]
+        case['trash_dir_is_topdir'] = True
     case['xopts'] = xo
     case['xstdin'] = xi
     if case['cmd'] == 'put2-toggle' and (state != 'sticky' or tv == ''):
@@ -309,14 +315,14 @@ def run_case(case):
             reply = ('0-%d\n' % (n - 1)) if n else '\n'
             r = run.run(w, 'restore', [], stdin=reply.encode(), cwd=w.R)
         elif cmd == 'empty':
-            r = (_run_pw if case.get('passwd') else run.run)(w, 'empty', case.get('xopts', []), stdin=case.get('xstdin', '').encode())
+            r = (_run_pw if case.get('passwd') else run.run)(w, 'empty', [world.subst(o_, w.R) for o_ in case.get('xopts', [])], stdin=case.get('xstdin', '').encode())
         elif cmd == 'empty-days':
-            r = (_run_pw if case.get('passwd') else run.run)(w, 'empty', case.get('xopts', []) + ['1'],
+            r = (_run_pw if case.get('passwd') else run.run)(w, 'empty', [world.subst(o_, w.R) for o_ in case.get('xopts', [])] + ['1'],
                         stdin=case.get('xstdin', '').encode())
         elif cmd == 'list':
-            r = (_run_pw if case.get('passwd') else run.run)(w, 'list', case.get('xopts', []), stdin=b'')
+            r = (_run_pw if case.get('passwd') else run.run)(w, 'list', [world.subst(o_, w.R) for o_ in case.get('xopts', [])], stdin=b'')
         else:
-            r = run.run(w, 'rm', case.get('xopts', []) + ['*'], stdin=b'')
+            r = run.run(w, 'rm', [world.subst(o_, w.R) for o_ in case.get('xopts', [])] + ['*'], stdin=b'')
         s1 = w.snapshot()
         if r.timeout or r.audit_ok() is False:
             out['verdict'] = 'inconclusive'
@@ -358,7 +364,8 @@ def run_case(case):
                 else:
                     obs['put_fell_through'] = 1
             if cmd == 'list' and state in ('nonsticky', 'link_sticky',
-                                           'link_nonsticky') and case['canaries']:
+                                           'link_nonsticky') and case['canaries'] \
+                    and not case.get('trash_dir_is_topdir'):
                 vis = w.abs(case['top'] + '/%d' % uid)
                 if vis not in r.errtext():
                     viol('list-did-not-report-skipped-dir/%s' % state,
@@ -388,7 +395,7 @@ def run_case(case):
             else:
                 viol('secure-trash-not-used/%s' % cmd)
         # entries in ordinary trash dirs keep being handled (sanity: list shows them)
-        if cmd == 'list':
+        if cmd == 'list' and not case.get('trash_dir_is_topdir'):
             for e in case['normal']:
                 if w.abs(e['loc']) not in text_out:
                     viol('normal-entry-not-listed')
